@@ -226,3 +226,14 @@ impl ReactorHandle
 }
 
 //-------------------------------------------------------------------------------------------------------------------
+
+#[cfg(feature = "verif")]
+impl EntityReactors
+{
+    pub(crate) fn verif_len(&self) -> usize
+    {
+        self.reactors.len()
+    }
+}
+
+//-------------------------------------------------------------------------------------------------------------------
